@@ -36,7 +36,7 @@ pub fn extras(rng: &mut Rng, n: usize, forbid: &[char]) -> Vec<(String, String)>
             _ => rng.text1(12, forbid),
         };
         let kind = k.split('_').next().unwrap_or("");
-        if CONSUMED.contains(&k.as_str()) || PLAYER_KINDS.contains(&kind) || out.iter().any(|(x, _)| *x == k) || k.bytes().next().map(|b| b < 3).unwrap_or(true) {
+        if crate::core::rng::KEYWORDS.contains(&k.as_str()) || CONSUMED.contains(&k.as_str()) || PLAYER_KINDS.contains(&kind) || out.iter().any(|(x, _)| *x == k) || k.bytes().next().map(|b| b < 3).unwrap_or(true) {
             continue;
         }
         let v = rng.text(24, forbid);
